@@ -1,0 +1,33 @@
+//go:build verif
+
+package ptt
+
+import "github.com/Ptt-official-app/go-pttbbs/ptttype"
+
+// Verification hooks (add-only, compiled only with -tags verif): the unexported writers of a
+// user's whole .PASSWDS record, so that an external driver can interleave them with the money
+// operations of package cache and compare shared memory with the file after every step.
+
+func VerifPasswdSyncUpdate(uid ptttype.UID, user *ptttype.UserecRaw) error {
+	return passwdSyncUpdate(uid, user)
+}
+
+func VerifPasswdSyncQuery(uid ptttype.UID) (*ptttype.UserecRaw, error) {
+	return passwdSyncQuery(uid)
+}
+
+func VerifPwcuStart(uid ptttype.UID, userID *ptttype.UserID_t) (*ptttype.UserecRaw, error) {
+	return pwcuStart(uid, userID)
+}
+
+func VerifPwcuEnd(uid ptttype.UID, user *ptttype.UserecRaw) error {
+	return pwcuEnd(uid, user)
+}
+
+func VerifPwcuIncNumPost(user *ptttype.UserecRaw, uid ptttype.UID) error {
+	return pwcuIncNumPost(user, uid)
+}
+
+func VerifKillUser(uid ptttype.UID, userID *ptttype.UserID_t) error {
+	return killUser(uid, userID)
+}
